@@ -176,6 +176,11 @@ func (b *bgen) bschema(from string, depth int, refP float64) M {
 				s["not"] = b.leafOrRef(from, refP)
 				b.hit("holder:not")
 			}
+		case 3:
+			// `dependencies`, in both forms (a list of property names, a $ref-free schema): no schema position of W, the
+			// analyzer does not look below it
+			s["dependencies"] = M{"a": []any{"b", "c"}, "d": M{"type": "object", "required": []any{"e"}}}
+			b.hit("keyword:dependencies")
 		}
 	case "map":
 		s["type"] = "object"
@@ -652,7 +657,16 @@ func (b *bgen) injectScenario(name string, rootDefs, paths M, aux map[string]M, 
 			rootDefs[holder].(M)["properties"].(M)[prop] = M{"type": "object", "properties": M{"t": M{"$ref": auxRef}, "u": M{"type": "string"}}}
 			g.hit("scenario:collide-pointer-inline-target")
 		}
-		paths["/scn/pointer"] = M{"get": resp(M{"$ref": "#/definitions/" + jsonPtrEscape(holder) + "/properties/" + jsonPtrEscape(prop)})}
+		if g.p(0.35) {
+			// the pointer is held by another root definition (so that it resolves, through the $ref it designates, to a
+			// top-level definition), and the import is a simple type with this single referrer
+			aux[ap]["definitions"].(M)[cn] = M{"type": "string", "format": "date-time"}
+			rootDefs["ptrUser"] = M{"type": "object", "properties": M{"when": M{"$ref": "#/definitions/" + jsonPtrEscape(holder) + "/properties/" + jsonPtrEscape(prop)}}}
+			paths["/scn/pointer"] = M{"get": resp(M{"$ref": "#/definitions/ptrUser"}), "put": resp(M{"$ref": "#/definitions/" + jsonPtrEscape(holder)})}
+			g.hit("scenario:collide-pointer-from-definition")
+		} else {
+			paths["/scn/pointer"] = M{"get": resp(M{"$ref": "#/definitions/" + jsonPtrEscape(holder) + "/properties/" + jsonPtrEscape(prop)})}
+		}
 		if g.p(0.6) {
 			paths["/scn/root"] = M{"get": resp(M{"$ref": "#/definitions/" + jsonPtrEscape(rn)})}
 		}
@@ -715,6 +729,16 @@ func (b *bgen) injectScenario(name string, rootDefs, paths M, aux map[string]M, 
 		aux["other/c.json"]["definitions"].(M)[ln] = M{"type": "object", "properties": M{"text": M{"type": "string"}}}
 		paths["/scn/a"] = M{"get": resp(M{"$ref": "aux/a.json#/definitions/" + jsonPtrEscape(tn)})}
 		paths["/scn/c"] = M{"get": resp(M{"$ref": "other/c.json#/definitions/" + jsonPtrEscape(tn)})}
+		if g.p(0.4) {
+			// the only referrer of a colliding import with complex inline children is a top-level alias definition
+			aux["aux/a.json"]["definitions"].(M)[tn] = M{"type": "object", "properties": M{
+				"name":   M{"type": "string"},
+				"detail": M{"type": "object", "properties": M{"d": M{"type": "string"}}},
+				"pair":   M{"type": "array", "items": []any{M{"type": "string"}, M{"type": "integer"}}}}}
+			rootDefs["remoteAlias"] = M{"$ref": "aux/a.json#/definitions/" + jsonPtrEscape(tn)}
+			paths["/scn/a"] = M{"get": resp(M{"$ref": "#/definitions/remoteAlias"})}
+			g.hit("scenario:collide-nested-alias-referrer")
+		}
 		g.hit("scenario:collide-nested")
 	case "collide-simple-shared":
 		// an imported definition that collides by name with a root definition, is simple ($ref-free array / map / enum) and
@@ -862,6 +886,26 @@ func (b *bgen) injectScenario(name string, rootDefs, paths M, aux map[string]M, 
 		aux[ap]["definitions"].(M)[kn] = simple
 		aux[ap]["definitions"].(M)["cycNode"] = M{"type": "object", "properties": M{"next": local("cycNode"), "kind": local(kn), "other": local(kn)}}
 		rootDefs[kn] = M{"type": "object", "properties": M{"rootKind": M{"type": "boolean"}}}
+		if g.p(0.35) {
+			// the root definition is the same schema up to the keywords that are no validation (readOnly, an extension,
+			// an example, a title): two different definitions all the same
+			twin := M{}
+			for k, v := range simple {
+				twin[k] = v
+			}
+			switch g.n(4) {
+			case 0:
+				twin["readOnly"] = true
+			case 1:
+				twin["x-nullable"] = true
+			case 2:
+				twin["example"] = "ex"
+			default:
+				twin["title"] = "the root one"
+			}
+			rootDefs[kn] = twin
+			g.hit("scenario:cycle-collide-annotation-twin")
+		}
 		paths["/scn/cyc"] = M{"get": resp(M{"$ref": relRef("", ap) + "#/definitions/cycNode"}), "put": resp(M{"$ref": "#/definitions/" + jsonPtrEscape(kn)})}
 		g.hit("scenario:cycle-collide-simple")
 	case "hash-twins":
@@ -1270,8 +1314,8 @@ func (b *bgen) injectScenario(name string, rootDefs, paths M, aux map[string]M, 
 		aux["parts/m.json"] = M{"definitions": M{"thing": M{"type": "object", "properties": M{"fromM": M{"type": "string"}}}}}
 		aux["parts/k.json"] = M{"definitions": M{"thing": M{"type": "object", "properties": M{"fromK": M{"type": "integer"}}}}}
 		paths["/scn/spell"] = M{
-			"get": resp(M{"$ref": "./parts/m.json#/definitions/thing"}),
-			"put": resp(M{"$ref": "parts/m.json#/definitions/thing"}),
+			"get":  resp(M{"$ref": "./parts/m.json#/definitions/thing"}),
+			"put":  resp(M{"$ref": "parts/m.json#/definitions/thing"}),
 			"post": resp(M{"$ref": "parts/k.json#/definitions/thing"})}
 		if g.p(0.5) {
 			rootDefs["spellHolder"] = M{"type": "object", "properties": M{"a": M{"$ref": "parts/../parts/m.json#/definitions/thing"}}}
@@ -1293,7 +1337,88 @@ func (b *bgen) injectScenario(name string, rootDefs, paths M, aux map[string]M, 
 			rootDefs["aliasUser"] = M{"type": "object", "properties": M{"a": M{"$ref": "#/definitions/" + urlFragEscape(jsonPtrEscape(an))}}}
 			paths["/scn/alias-gen-user"] = M{"get": resp(M{"$ref": "#/definitions/aliasUser"})}
 		}
+		if g.p(0.4) {
+			// a definition whose name contains "OAIGen" holds a remote $ref in a property named like another root definition
+			rootDefs["aliasTag"] = M{"type": "object", "properties": M{"own": M{"type": "boolean"}}}
+			rootDefs["petOAIGen"] = M{"type": "object", "properties": M{"aliasTag": M{"$ref": relRef("", ap) + "#/definitions/aliasTarget"}, "k": M{"type": "integer"}}}
+			paths["/scn/alias-gen-tag"] = M{"get": resp(M{"$ref": "#/definitions/aliasTag"}), "put": resp(M{"$ref": "#/definitions/petOAIGen"})}
+			g.hit("scenario:named-like-generated-holds-remote-ref")
+		}
 		g.hit("scenario:alias-named-like-generated")
+	case "pattern-properties-complex":
+		// several patternProperties entries (and nested definitions) that hold complex inline schemas of different shapes:
+		// each is indexed, and under full flattening named, with its own content
+		rootDefs["registry"] = M{"type": "object",
+			"patternProperties": M{
+				"^a": M{"type": "object", "properties": M{"first": M{"type": "string"}}},
+				"^b": M{"type": "object", "properties": M{"second": M{"type": "integer"}}},
+				"^c": M{"type": "array", "items": []any{M{"type": "string"}, M{"type": "boolean"}}}},
+			"properties": M{"plain": M{"type": "string"}}}
+		paths["/scn/registry"] = M{"get": resp(M{"$ref": "#/definitions/registry"})}
+		g.hit("scenario:pattern-properties-complex")
+	case "root-alias-of-same-name":
+		// a root definition that is a plain alias of the same-named definition of an auxiliary document; operations refer
+		// to the auxiliary definition directly, and (sometimes) nothing refers to the alias
+		ap := "aux/scn.json"
+		if len(b.auxPaths) > 0 {
+			ap = b.auxPaths[0]
+		} else if _, ok := aux[ap]; !ok {
+			aux[ap] = M{"definitions": M{}}
+		}
+		// two such aliases: nothing refers to the first one, an operation refers to the second one
+		for k, nm := range []string{g.pick([]string{"foo", "fooBar", "Foo bar"}), g.pick([]string{"qux", "quxBaz", "q~ux"})} {
+			var body M
+			if g.p(0.5) {
+				body = M{"type": "object", "properties": M{"v": M{"type": "string"}}}
+			} else {
+				body = M{"type": "string", "enum": []any{"x", "y"}}
+			}
+			aux[ap]["definitions"].(M)[nm] = body
+			auxRef := relRef("", ap) + "#/definitions/" + urlFragEscape(jsonPtrEscape(nm))
+			rootDefs[nm] = M{"$ref": auxRef}
+			paths[fmt.Sprintf("/scn/same-name%d", k)] = M{"get": resp(M{"$ref": auxRef})}
+			if k == 1 {
+				paths["/scn/same-name-alias"] = M{"get": resp(M{"$ref": "#/definitions/" + urlFragEscape(jsonPtrEscape(nm))})}
+			}
+		}
+		g.hit("scenario:root-alias-of-same-name")
+	case "mangled-sibling-of-recursive":
+		// a recursive definition of an auxiliary document refers to a $ref-free sibling whose name mangles like its own
+		// ("tree node" / "tree_node"): the recursive one is imported first, the sibling collides with it
+		ap := "aux/scn.json"
+		if len(b.auxPaths) > 0 {
+			ap = b.auxPaths[0]
+		} else if _, ok := aux[ap]; !ok {
+			aux[ap] = M{"definitions": M{}}
+		}
+		n1, n2 := "tree node", "tree_node"
+		if g.p(0.5) {
+			n1, n2 = "my item", "my-item"
+		}
+		local := func(n string) M { return M{"$ref": "#/definitions/" + urlFragEscape(jsonPtrEscape(n))} }
+		aux[ap]["definitions"].(M)[n1] = M{"type": "object", "properties": M{"next": local(n1), "leaf": local(n2)}}
+		aux[ap]["definitions"].(M)[n2] = M{"type": "string", "enum": []any{"l"}}
+		paths["/scn/mangled-sibling"] = M{"get": resp(M{"$ref": relRef("", ap) + "#/definitions/" + urlFragEscape(jsonPtrEscape(n1))})}
+		g.hit("scenario:mangled-sibling-of-recursive")
+	case "two-oaigen-kinds":
+		// two name conflicts of different kinds in one run: an inline complex schema whose generated name is taken (it is
+		// re-inlined as complex: another naming round is due) and a colliding import of a simple schema (no round due)
+		ap := "aux/scn.json"
+		if len(b.auxPaths) > 0 {
+			ap = b.auxPaths[0]
+		} else if _, ok := aux[ap]; !ok {
+			aux[ap] = M{"definitions": M{}}
+		}
+		owner := g.pick([]string{"zoo", "ant"})
+		rootDefs[owner] = M{"type": "object", "properties": M{"keeper": M{"type": "object", "properties": M{"name": M{"type": "string"}}}, "n": M{"type": "integer"}}}
+		rootDefs[swag.ToGoName(owner+" keeper")] = M{"type": "object", "properties": M{"taken": M{"type": "boolean"}}}
+		tn := g.pick([]string{"tag", "yak"})
+		rootDefs[tn] = M{"type": "object", "properties": M{"id": M{"type": "integer"}}}
+		aux[ap]["definitions"].(M)[tn] = M{"type": "string", "format": "uuid"}
+		rootDefs["kindsUser"] = M{"type": "object", "properties": M{"t": M{"$ref": relRef("", ap) + "#/definitions/" + tn}}}
+		paths["/scn/kinds"] = M{"get": resp(M{"$ref": "#/definitions/" + owner}), "put": resp(M{"$ref": "#/definitions/kindsUser"}),
+			"post": resp(M{"$ref": "#/definitions/" + swag.ToGoName(owner+" keeper")}), "delete": resp(M{"$ref": "#/definitions/" + tn})}
+		g.hit("scenario:two-oaigen-kinds")
 	case "unused-chain":
 		// definitions that become unused only after another one is removed, through names that need escaping
 		if g.p(0.5) {
@@ -1457,7 +1582,13 @@ func (b *bgen) injectPlus(rootDefs, paths M, aux map[string]M, params, resps M) 
 				addPath(M{"$ref": "#/definitions/PlusCased"})
 				r = g.pick([]string{"#/definitions/plusCased", "#/definitions/PLUSCASED"})
 			}
-			addPath(M{"$ref": r})
+			if g.p(0.3) {
+				// held by a definition nothing refers to: RemoveUnused must not make the unresolvable $ref go unnoticed
+				rootDefs["plusOrphan"] = M{"type": "object", "properties": M{"p": M{"$ref": r}}}
+				what = append(what, "dangling-in-orphan")
+			} else {
+				addPath(M{"$ref": r})
+			}
 			mustFail = true
 			what = append(what, "dangling")
 		case 4:
